@@ -31,6 +31,18 @@
 #define LK_ON 0
 #endif
 
+#ifdef LK_STANDALONE_RC
+/* The COAP_THREAD_RECURSIVE_CHECK variant of the lock code (what the autoconf build enables by
+ * default): built with -DCOAP_THREAD_RECURSIVE_CHECK=1 -DLK_STANDALONE_RC, src/coap_threadsafe.c
+ * is compiled into this driver and nothing else of libcoap is needed. */
+#include <stdarg.h>
+#include "coap_threadsafe.c"
+coap_lock_t global_lock;
+int coap_started = 1;
+coap_log_t coap_get_log_level(void) { return COAP_LOG_EMERG; }
+void coap_log_impl(coap_log_t level, const char *format, ...) { (void)level; (void)format; }
+#endif
+
 #define MAXT 16
 #define STACKSZ (256 * 1024)
 
@@ -287,7 +299,11 @@ static void run_case(void) {
 
 int main(void) {
   setvbuf(stdout, NULL, _IOLBF, 0);
+#ifdef LK_STANDALONE_RC
+  coap_lock_init();
+#else
   coap_startup();
+#endif
   lkctx = (coap_context_t *)&lkctx;   /* never dereferenced by the lock macros */
   while (next_case(stdin)) {
     if (vntok == 0) { printf("\n"); continue; }
@@ -298,7 +314,11 @@ int main(void) {
 #ifdef COAP_THREAD_SAFE
       ifdef = 1;
 #endif
+#ifdef LK_STANDALONE_RC
+      printf("supported=-1 macro=%d ifdef=%d rc=%d\n", LK_ON, ifdef, COAP_THREAD_RECURSIVE_CHECK + 0);
+#else
       printf("supported=%d macro=%d ifdef=%d\n", coap_threadsafe_is_supported(), LK_ON, ifdef);
+#endif
     } else {
       printf("ERROR unknown command\n");
     }
